@@ -190,6 +190,14 @@ def c18_tables():
     parts.append("/-- main_cli: integers assigned to response[\"code\"], in source order (ok, ok with warnings, failure) -/\n"
                  "def c18CliCodes : List Nat := [" + ", ".join(str(v) for _, v in sorted(codes)) + "]")
     parts.append(list_s("c18CliMessages", [v for _, v in sorted(msgs)], "main_cli: strings assigned to response[\"message\"]"))
+    # has_external_choices / containers
+    from pyxform import builder as _builder
+    from pyxform import constants as _const
+    parts.append(str_c("c18TypeKey", _const.TYPE, "constants.TYPE"))
+    parts.append(str_c("c18ChildrenKey", _const.CHILDREN, "constants.CHILDREN"))
+    parts.append(str_c("c18SelectOneExternal", _const.SELECT_ONE_EXTERNAL, "constants.SELECT_ONE_EXTERNAL"))
+    parts.append(list_s("c18SectionTypes", list(_builder.SECTION_CLASSES), "keys of builder.SECTION_CLASSES"))
+    parts.append(str_c("c18LoopType", _const.LOOP, "constants.LOOP (the container the builder handles outside SECTION_CLASSES)"))
     handlers = []
     for sub in ast.walk(mc):
         if isinstance(sub, ast.ExceptHandler) and isinstance(sub.type, ast.Name) and sub.type.id != "Exception":
@@ -399,6 +407,7 @@ def main(out_path: str):
     parts.append(dict_ss("c04Consts", {n: getattr(constants, n) for n in (
         "AUDIO_QUALITY_VOICE_ONLY", "AUDIO_QUALITY_LOW", "AUDIO_QUALITY_NORMAL", "AUDIO_QUALITY_EXTERNAL",
         "FIELD_LIST", "TABLE_LIST", "LIST_NOLABEL")}, "constants used by the parameter / appearance blocks of workbook_to_json"))
+    parts.append(list_s("xmlReservedNamespaces", sorted(getattr(utils, "XML_RESERVED_NAMESPACES", ())), "utils.XML_RESERVED_NAMESPACES (validate_xml_document; empty before the C01-reserved-namespace-names fix)"))
     parts.append("end Pyxv.Gen\n")
     # several slices may ask for the same table: keep the first definition of each name
     seen, uniq = set(), []
